@@ -104,6 +104,11 @@ def _layouts(vio):
     out = [case["layout"]] if isinstance(case.get("layout"), dict) else []
     for op in case.get("ops", []) or []:
         out.extend(op.get("others", []) or [])
+    if isinstance(case.get("op"), dict):
+        out.extend(case["op"].get("others", []) or [])
+    for k in ("A", "B", "C"):
+        if isinstance(case.get(k), dict):
+            out.append(case[k])
     return out
 
 
@@ -191,6 +196,8 @@ def _has_class(vio, names, keys=("layout", "A", "B", "C")):
     ds = [case[k] for k in keys if isinstance(case.get(k), dict)]
     op = _op_of(vio)
     ds.extend(op.get("others", []) or [])
+    if isinstance(case.get("op"), dict):
+        ds.extend(case["op"].get("others", []) or [])
     for d in ds:
         for _p, n in model.walk(d):
             if n["c"] in names:
@@ -212,13 +219,22 @@ def _f29(vio):
 
 @mechanism("F24-merge-unknown-drops-parameters")
 def _f24(vio):
-    return vio.get("kind") == "value-differs" and _op_of(vio).get("op") == "mergemany" and \
-        _has_class(vio, ("EmptyArray",))
+    if _op_of(vio).get("op") != "mergemany":
+        return False
+    if vio.get("kind") == "value-differs":
+        return _has_class(vio, ("EmptyArray",))
+    if vio.get("kind") == "wrong-value":
+        from vlib import model
+        for d in _layouts(vio):
+            for _p, n in model.walk(d):
+                if model.param(n, "__array__") in ("string", "bytestring"):
+                    return True
+    return False
 
 
 @mechanism("F25-merge-regular-vs-numpy")
 def _f25(vio):
-    return vio.get("kind") == "outcome-kind-differs" and _op_of(vio).get("op") == "mergemany" and \
+    return vio.get("kind") in ("outcome-kind-differs", "unexpected-error") and _op_of(vio).get("op") == "mergemany" and \
         ("cannot merge ListArray64 with NumpyArray" in str(vio.get("detail")) or
          "cannot merge NumpyArray with RegularArray" in str(vio.get("detail"))) and _has_class(vio, ("RegularArray",))
 
@@ -417,6 +433,16 @@ def _f47(vio):
     items = _slice_items(vio)
     return vio.get("kind") in ("wrong-value", "value-differs") and _op_of(vio).get("op") == "getitem" and \
         sum(1 for it in items if it.get("t") == "array") >= 2 and _has_class(vio, OPTC)
+
+
+@mechanism("F49b-complex-to-bool-real-part")
+def _f49b(vio):
+    op = _op_of(vio)
+    if vio.get("kind") != "wrong-value" or op.get("op") != "numbers_to_type" or op.get("name") != "bool":
+        return False
+    from vlib import model
+    return any(n["c"] == "NumpyArray" and n["dtype"].startswith("complex") for d in _layouts(vio)
+               for _p, n in model.walk(d))
 
 
 @mechanism("F10-reduce-nonlocal")
